@@ -49,10 +49,14 @@ let cz = Conv.coqz_of_z
 (* contiguous integer range lo..hi *)
 let range lo hi = List.init (hi - lo + 1) (fun i -> cz (Z.of_int (lo + i)))
 
+(* the symbols of a window: ALL symbols occurring in the formulas (they are the values of constants:
+   a structure that lacks one of them is not a structure of the signature, and
+   [exists X$s (X$s = b)] would be false in it), padded to [n] with fresh ones *)
 let syms_for (fs : formula list) (n : int) : char list list =
-  let syms = List.concat_map symbols fs in
-  Semlib.take n (List.fold_left (fun acc s -> if List.mem s acc then acc else acc @ [ s ]) []
-                   (syms @ [ Semlib.cl "a"; Semlib.cl "zz"; Semlib.cl "zy" ]))
+  let dedup = List.fold_left (fun acc s -> if List.mem s acc then acc else acc @ [ s ]) [] in
+  let occ = dedup (List.concat_map symbols fs) in
+  if List.length occ >= n then occ
+  else Semlib.take n (dedup (occ @ [ Semlib.cl "a"; Semlib.cl "zz"; Semlib.cl "zy" ]))
 
 (* cost of one evaluation: number of atomic evaluations, quantifiers ranging over the window *)
 let rec cost (w : window) (f : formula) : float =
@@ -177,6 +181,16 @@ let () =
   Ops.register "sc_extend_quantifier_scope" (fun e -> of_formula (C.extend_quantifier_scope (formula e)));
   Ops.register "sc_simplify_transitive_equality" (fun e -> of_opt_formula (C.simplify_transitive_equality_opt (formula e)));
   Ops.register "simplify_cls" simplify_cls;
+  (* hand-built trees outside the parser's image, kept apart from the ops on real formulas:
+     (which F), which = rdn|sdv|rqd|eqs|ste or a strategy name *)
+  Ops.register "sc_outside_parser" (fun e ->
+      match e with
+      | L [ A "rdn"; f ] -> of_formula (C.remove_double_negation (formula f))
+      | L [ A "sdv"; f ] -> of_opt_formula (C.substitute_defined_variables_opt (formula f))
+      | L [ A "rqd"; f ] -> of_opt_formula (C.restrict_quantifier_domain_opt (formula f))
+      | L [ A "eqs"; f ] -> of_formula (C.extend_quantifier_scope (formula f))
+      | L [ A "ste"; f ] -> of_opt_formula (C.simplify_transitive_equality_opt (formula f))
+      | _ -> simplify_cls e);
   Ops.register "sem_simplify_cls" sem_simplify_cls;
   Ops.register "sem_simplify_full_classic" sem_simplify_cls
 let init () = ()
